@@ -79,7 +79,12 @@ inductive PObj
   | poly (ts : Poly)
   | plist (ps : List Pauli)
   | num (c : Cx)
+  /-- a polynomial without terms on `n` qubits (arrays of shape `(0, 2n)`): the library keeps the number of qubits -/
+  | zero (n : Nat)
 deriving Repr
+
+/-- a polynomial result of the library: the term list, or the empty polynomial on `n` qubits -/
+def normP (n : Nat) (ts : Poly) : PObj := if ts.isEmpty then .zero n else .poly ts
 
 def PObj.N : PObj → Nat
   | .pauli a => a.g.length
@@ -87,6 +92,7 @@ def PObj.N : PObj → Nat
   | .poly ts => (ts.head?.map (·.1.g.length)).getD 0
   | .plist ps => (ps.head?.map (·.g.length)).getD 0
   | .num _ => 0
+  | .zero n => n
 
 /-- `as_polynomial()` where it exists -/
 def PObj.asPoly : PObj → Option Poly
@@ -95,6 +101,7 @@ def PObj.asPoly : PObj → Option Poly
   | .poly ts => some ts
   | .plist ps => some (ps.map fun a => (a, Cx.one))
   | .num _ => none
+  | .zero _ => some []
 
 /-- is `c` one of `1, 1j, -1, -1j`? then which power of `i` -/
 def unitPow (c : Cx) : Option Nat :=
@@ -112,6 +119,7 @@ def PObj.rmul (c : Cx) : PObj → Except Err PObj
     | some k => .ok (.plist (if k = 0 then ps else ps.map fun a => ⟨a.g, (a.p + (k : Int)) % 4⟩))
     | none => .error .notImplemented
   | .num d => .ok (.num (c.mul d))
+  | .zero n => .ok (.zero n)
 
 /-- `-obj` (`__neg__`) -/
 def PObj.neg : PObj → PObj
@@ -120,6 +128,7 @@ def PObj.neg : PObj → PObj
   | .poly ts => .poly (polyNeg ts)
   | .plist ps => .plist (ps.map PC.neg)
   | .num c => .num c.neg
+  | .zero n => .zero n
 
 /-- `a + b` where `a` is Pauli / monomial / polynomial (`self.as_polynomial() + other`) -/
 def PObj.add (a b : PObj) : Except Err PObj :=
@@ -128,22 +137,22 @@ def PObj.add (a b : PObj) : Except Err PObj :=
     | .plist _ => .error .type
     | .num _ => .error .type
     | _ => match b.asPoly with
-      | some pb => .ok (.poly (polyAdd pb (ps.map fun x => (x, Cx.one))))
+      | some pb => .ok (normP b.N (polyAdd pb (ps.map fun x => (x, Cx.one))))
       | none => .error .type
   | .num c => match b with
     | .num d => .ok (.num (c.add d))
     | .plist _ => .error .type
     | _ => match b.asPoly with        -- `__radd__`: `self + other`
-      | some pb => .ok (.poly (polyAdd pb (polySmul c (polyIdentity b.N))))
+      | some pb => .ok (normP b.N (polyAdd pb (polySmul c (polyIdentity b.N))))
       | none => .error .type
   | _ =>
     match a.asPoly with
     | none => .error .type
     | some pa =>
       match b with
-      | .num c => .ok (.poly (polyAdd pa (polySmul c (polyIdentity a.N))))
+      | .num c => .ok (normP a.N (polyAdd pa (polySmul c (polyIdentity a.N))))
       | _ => match b.asPoly with
-        | some pb => .ok (.poly (polyAdd pa pb))
+        | some pb => .ok (normP a.N (polyAdd pa pb))
         | none => .error .type
 
 /-- `a - b` = `a + (-b)` -/
@@ -162,11 +171,12 @@ def PObj.div (a : PObj) (c : Cx) : Except Err PObj := a.rmul c.inv
 def PObj.matmul (a b : PObj) : Except Err PObj :=
   match a, b with
   | .pauli x, .pauli y => .ok (.pauli (mul x y))
-  | .pauli _, .mono .. | .pauli _, .poly _
-  | .mono .., .pauli _ | .mono .., .mono .. | .mono .., .poly _
-  | .poly _, .pauli _ | .poly _, .mono .. | .poly _, .poly _ =>
+  | .pauli _, .mono .. | .pauli _, .poly _ | .pauli _, .zero _
+  | .mono .., .pauli _ | .mono .., .mono .. | .mono .., .poly _ | .mono .., .zero _
+  | .poly _, .pauli _ | .poly _, .mono .. | .poly _, .poly _ | .poly _, .zero _
+  | .zero _, .pauli _ | .zero _, .mono .. | .zero _, .poly _ | .zero _, .zero _ =>
     match a.asPoly, b.asPoly with
-    | some pa, some pb => .ok (.poly (polyMatmul pa pb))
+    | some pa, some pb => .ok (normP a.N (polyMatmul pa pb))
     | _, _ => .error .notImplemented
   | .plist _, _ => .error .type
   | .num _, _ => .error .type
@@ -179,6 +189,7 @@ def PObj.trace : PObj → Except Err Cx
   | .poly ts => .ok (polyTrace ts)
   | .plist _ => .error .type
   | .num _ => .error .type
+  | .zero _ => .ok Cx.zero
 
 end PC
 
